@@ -290,6 +290,7 @@ class Exec:
         if isinstance(n, ast.Name):
             if n.id not in st.env:
                 if n.id in ('int', 'float', 'complex'): return TypeV(n.id)
+                if n.id in self.callees: return FuncV(n.id)          # module-level function under contract
                 raise Undecided('unknown name ' + n.id)
             return st.env[n.id]
         if isinstance(n, ast.UnaryOp):
@@ -1030,6 +1031,12 @@ def sum_facts(ob, reg, alg, depth=1, pair_timeout_ms=None):
     ctx = list(ob.assume)
     lin = z3.Solver(); lin.set('timeout', 1000); lin.add(*[a for a in ob.assume if not _has_quant(a)])
     w = z3.Int('w!cg')
+    # zero lemma: a sum whose terms all vanish is zero (skolemised: one small query per record)
+    for (ca, loa, hia, fa) in allrec:
+        try: prem = z3.Implies(z3.And(loa <= w, w <= hia), fa(w) == alg.zero)
+        except Undecided: continue
+        v, _ = _check(ctx, prem, pair_timeout_ms or PAIR_TIMEOUT_MS)
+        if v == 'unsat': out.append(ca == alg.zero)
     for (a, b) in itertools.combinations(allrec, 2):
         (ca, loa, hia, fa), (cb, lob, hib, fb) = a, b
         lin.push(); lin.add(hib - lob != hia - loa); r = lin.check(); lin.pop()
